@@ -2,6 +2,8 @@
 
 package NoKV
 
+import "sync/atomic"
+
 // Accessors for the verification harness (/verif). Compiled only with -tags verif.
 
 // VerifApplyThrottle toggles the L0 write throttle as the LSM callback does.
@@ -14,3 +16,6 @@ func (db *DB) VerifOracleState() (next, txnDone, txnLast, readDone uint64) {
 
 // VerifCommitQueueClosed reports whether the commit queue was closed.
 func (db *DB) VerifCommitQueueClosed() bool { return db.commitQueue.closed == 1 }
+
+// VerifWritesBlocked reports whether the L0 write throttle is on.
+func (db *DB) VerifWritesBlocked() bool { return atomic.LoadInt32(&db.blockWrites) == 1 }
